@@ -1035,6 +1035,7 @@ class FnTranslator:
         self.ret_ref = False
         self.lock_held = []
         self.svd_vars = {}
+        self.eigh_vars = {}
 
     # -- helpers -----------------------------------------------------------------------
     def rule(self, r):
@@ -1686,6 +1687,23 @@ class FnTranslator:
                 return self.flush() + self.eig_store(tgt.lv, ('eig', tgt.st, tgt.rows, tgt.cols), ev)
         if k == 'CXXMemberCallExpr':
             me = self.callee_decl(n0)
+            if me.get('kind') == 'MemberExpr' and me.get('name') == 'compute' and 'SelfAdjointEigenSolver<' in (node_type(self.inner(me)[0]) + self.desugar(self.inner(me)[0])):
+                # solver.compute(M) for a fixed 2x2 / 3x3 M: the decomposition enters by its ASSUMED contract; eigenvalues() / eigenvectors()
+                # of that solver object are from here on uninterpreted functions eigh<n>_l<i> / eigh<n>_v<i><j> of the coefficients of M
+                margs = [a for a in self.inner(n0)[1:] if self.strip(a)['kind'] != 'CXXDefaultArgExpr']
+                m = self.eig(margs[0])
+                if m.rows != m.cols or m.rows not in (2, 3):
+                    self.err(n0, 'SelfAdjointEigenSolver of a %dx%d matrix has no contract here' % (m.rows, m.cols))
+                key = self.solver_key(self.inner(me)[0])
+                out, coeffs = [], []
+                for i in range(m.rows):
+                    for j in range(m.cols):
+                        nm = self.tmp(m.st)
+                        out.append(('decl', nm, m.st, m.get(i, j)))
+                        coeffs.append(('var', nm, m.st))
+                self.eigh_vars[key] = (coeffs, m.st, m.rows)
+                self.rule('Eigen::SelfAdjointEigenSolver::compute of a fixed 2x2 / 3x3 matrix -> assumed contract (uninterpreted eigh<n>_* of the coefficients)')
+                return self.flush() + out
             if me.get('kind') == 'MemberExpr' and me.get('name') == 'rankUpdate':
                 # M.selfadjointView<Lower|Upper>().rankUpdate(U): documented semantics: the referenced triangle of M += U * U^T (the other
                 # triangle is not touched)
@@ -3063,6 +3081,14 @@ class FnTranslator:
         o0 = self.strip(obj)
         while o0['kind'] in ('ImplicitCastExpr', 'ParenExpr') and self.inner(o0):
             o0 = self.strip(self.inner(o0)[0])
+        if name in ('eigenvalues', 'eigenvectors') and 'SelfAdjointEigenSolver<' in (node_type(o0) + self.desugar(o0)):
+            key = self.solver_key(o0)
+            if key not in self.eigh_vars:
+                self.err(n, 'SelfAdjointEigenSolver::%s() without a compute() of the same solver object earlier in this function' % name)
+            coeffs, st, nn = self.eigh_vars[key]
+            if name == 'eigenvalues':
+                return EigVal(st, nn, 1, lambda i, j: ('call', 'eigh%d_l%d' % (nn, i), list(coeffs), st))
+            return EigVal(st, nn, nn, lambda i, j: ('call', 'eigh%d_v%d%d' % (nn, i, j), list(coeffs), st))
         if o0['kind'] == 'DeclRefExpr' and o0.get('referencedDecl', {}).get('id') in self.svd_vars and name in ('singularValues', 'matrixU', 'matrixV'):
             coeffs, st, nn = self.svd_vars[o0['referencedDecl']['id']]
             if name == 'singularValues':
@@ -3217,6 +3243,16 @@ class FnTranslator:
             nrm = ('call', 'sqrt', [self._fold_sq(a)], a.st)
             return EigVal(a.st, a.rows, a.cols, lambda i, j: ('bin', '/', a.get(i, j), nrm, a.st))
         self.err(n, 'Eigen method %s' % name)
+
+    def solver_key(self, n):
+        n = self.strip(n)
+        while n['kind'] in ('ImplicitCastExpr', 'ParenExpr') and self.inner(n):
+            n = self.strip(self.inner(n)[0])
+        if n['kind'] == 'MemberExpr':
+            return 'member:' + n.get('name', '?')
+        if n['kind'] == 'DeclRefExpr':
+            return 'var:' + str(n.get('referencedDecl', {}).get('id'))
+        self.err(n, 'eigen-solver object expression')
 
     def desugar(self, n):
         t = n.get('type', {})
